@@ -1,2 +1,294 @@
-/- Oracle for C14 (stub: replaced when the property's model is built). -/
-def main : IO Unit := pure ()
+/-
+  Oracle for C14.  Reads the harness stream (one case after another)
+
+    C <id> <n>
+    G <name> <q>... [A=<float64 bits of the angle the Go code uses>]
+    M <k> <dim> <nnz> (<i> <j> <reBits> <imBits>)*     k-th matrix returned by QasmToBmMatrices
+    P <dim> <nnz> (...)                                 Go's own product M_last*...*M_0
+    S <k> <nnz> (<i> <reBits> <imBits>)*                RunSoftwareSimulation output for basis state k
+    E <text>                                            error / panic of the Go side
+    X                                                   end of case
+
+  and prints one verdict line per case:
+
+    R id=<id> n=<n> gates=<g> layers=<l> maxmulti=<m> follows=<fixed|stale|both|none> verdict=<ok|stale|fail>
+      [kind=<...> layer=<t> at=<i>,<j> impl=<re>,<im> ref=<re>,<im>] [prop=<ok|fail>] ...
+
+  verdict=ok    : every emitted matrix equals the reference layer (exact zero pattern, values within
+                  tolerance), is unitary, the product equals Uref, the simulation returns Uref's columns
+  verdict=stale : the property FAILS on this circuit and the emitted matrices are exactly what the model
+                  of the unrepaired code (`layer true`) predicts (the signature of the known defect)
+  verdict=fail  : anything else (property fails in a different way, or the implementation follows
+                  neither model)
+  With `--sym` the symbolic structure of every reference layer is printed as well (`Y` lines).
+-/
+import BMV.Quantum
+import BMV.Lines
+open BMV.Quantum BMV.Lines
+
+structure C where
+  re : Float
+  im : Float
+deriving Inhabited
+
+instance : Ops C where
+  zero := ⟨0, 0⟩
+  one := ⟨1, 0⟩
+  mul a b := ⟨a.re * b.re - a.im * b.im, a.re * b.im + a.im * b.re⟩
+  add a b := ⟨a.re + b.re, a.im + b.im⟩
+
+def C.isZero (a : C) : Bool := a.re == 0 && a.im == 0
+def C.dist (a b : C) : Float :=
+  let x := Float.abs (a.re - b.re)
+  let y := Float.abs (a.im - b.im)
+  if x ≤ y then y else if y ≤ x then x else x + y  -- NaN propagates
+def C.conj (a : C) : C := ⟨a.re, -a.im⟩
+def C.str (a : C) : String := s!"{a.re},{a.im}"
+
+def cz : C := ⟨0, 0⟩
+def c1 : C := ⟨1, 0⟩
+def ci : C := ⟨0, 1⟩
+
+def pi : Float := 3.14159265358979323846
+
+def ofRows (rows : List (List C)) : Mat C := fun i j => (rows.getD i []).getD j cz
+
+/-- reference gate matrices: the textbook closed forms (first argument = most significant bit) -/
+def gateMat (name : String) (θ : Float) : Option (Nat × Mat C) :=
+  let h : Float := 1 / Float.sqrt 2
+  let c := Float.cos (θ / 2)
+  let s := Float.sin (θ / 2)
+  match name with
+  | "h" => some (1, ofRows [[⟨h, 0⟩, ⟨h, 0⟩], [⟨h, 0⟩, ⟨-h, 0⟩]])
+  | "x" => some (1, ofRows [[cz, c1], [c1, cz]])
+  | "y" => some (1, ofRows [[cz, ⟨0, -1⟩], [ci, cz]])
+  | "z" => some (1, ofRows [[c1, cz], [cz, ⟨-1, 0⟩]])
+  | "s" => some (1, ofRows [[c1, cz], [cz, ci]])
+  | "p" => some (1, ofRows [[c1, cz], [cz, ci]])          -- bmqsim dialect: `p` is the fixed phase gate P = S
+  | "t" => some (1, ofRows [[c1, cz], [cz, ⟨Float.cos (pi / 4), Float.sin (pi / 4)⟩]])
+  | "sx" => some (1, ofRows [[⟨0.5, 0.5⟩, ⟨0.5, -0.5⟩], [⟨0.5, -0.5⟩, ⟨0.5, 0.5⟩]])
+  | "r" => some (1, ofRows [[c1, cz], [cz, ⟨Float.cos θ, Float.sin θ⟩]])   -- phase shift P(θ)
+  | "rx" => some (1, ofRows [[⟨c, 0⟩, ⟨0, -s⟩], [⟨0, -s⟩, ⟨c, 0⟩]])
+  | "ry" => some (1, ofRows [[⟨c, 0⟩, ⟨-s, 0⟩], [⟨s, 0⟩, ⟨c, 0⟩]])
+  | "rz" => some (1, ofRows [[⟨c, -s⟩, cz], [cz, ⟨c, s⟩]])
+  | "cx" => some (2, ofRows [[c1, cz, cz, cz], [cz, c1, cz, cz], [cz, cz, cz, c1], [cz, cz, c1, cz]])
+  | "cz" => some (2, ofRows [[c1, cz, cz, cz], [cz, c1, cz, cz], [cz, cz, c1, cz], [cz, cz, cz, ⟨-1, 0⟩]])
+  | "swap" => some (2, ofRows [[c1, cz, cz, cz], [cz, cz, c1, cz], [cz, c1, cz, cz], [cz, cz, cz, c1]])
+  | "iswap" => some (2, ofRows [[c1, cz, cz, cz], [cz, cz, ci, cz], [cz, ci, cz, cz], [cz, cz, cz, c1]])
+  | "dcnot" => some (2, ofRows [[c1, cz, cz, cz], [cz, cz, c1, cz], [cz, cz, cz, c1], [cz, c1, cz, cz]])
+  | _ => none
+
+/-! dense matrices -/
+structure Dense where
+  dim : Nat
+  a : Array C
+deriving Inhabited
+
+def Dense.get (m : Dense) (i j : Nat) : C := m.a.getD (i * m.dim + j) cz
+
+def Dense.ofMat (N : Nat) (f : Mat C) : Dense :=
+  ⟨N, Id.run do
+    let mut a : Array C := Array.mkEmpty (N * N)
+    for i in [0:N] do
+      for j in [0:N] do
+        a := a.push (f i j)
+    return a⟩
+
+def Dense.mul (x y : Dense) : Dense :=
+  let N := x.dim
+  ⟨N, Id.run do
+    let mut a : Array C := Array.mkEmpty (N * N)
+    for i in [0:N] do
+      for j in [0:N] do
+        let mut acc : C := cz
+        for k in [0:N] do
+          let p := MulOps.mul (x.get i k) (y.get k j)
+          if !p.isZero then acc := Ops.add acc p
+        a := a.push acc
+    return a⟩
+
+def Dense.ident (N : Nat) : Dense := Dense.ofMat N (fun i j => if i = j then c1 else cz)
+
+def Dense.dagger (x : Dense) : Dense := Dense.ofMat x.dim (fun i j => (x.get j i).conj)
+
+/-- first entry where two matrices differ: exact zero pattern, then tolerance -/
+def Dense.diff (impl ref : Dense) (tol : Float) (exactZero : Bool) : Option (Nat × Nat) := Id.run do
+  if impl.dim != ref.dim then return some (impl.dim, ref.dim)
+  for i in [0:ref.dim] do
+    for j in [0:ref.dim] do
+      let a := impl.get i j
+      let b := ref.get i j
+      if exactZero && (a.isZero != b.isZero) then return some (i, j)
+      if !(C.dist a b ≤ tol) then return some (i, j)
+  return none
+
+/-! parsing -/
+def flt (s : String) : Float := Float.ofBits (nat! s).toUInt64
+
+structure G where
+  name : String
+  args : List Nat
+  θ : Float
+
+def parseG (fs : List String) : G :=
+  match fs with
+  | name :: rest =>
+    let ang := rest.filter (·.startsWith "A=")
+    let qs := rest.filter (fun f => !f.startsWith "A=")
+    ⟨name, qs.map nat!, match ang with | a :: _ => flt (a.drop 2).toString | [] => 0⟩
+  | [] => ⟨"?", [], 0⟩
+
+def parseEntries2 (dim : Nat) : List String → Array C → Array C
+  | i :: j :: re :: im :: rest, a => parseEntries2 dim rest (a.setIfInBounds (nat! i * dim + nat! j) ⟨flt re, flt im⟩)
+  | _, a => a
+
+def parseDense (fs : List String) : Dense :=
+  match fs with
+  | dim :: _nnz :: rest =>
+    let d := nat! dim
+    ⟨d, parseEntries2 d rest (Array.replicate (d * d) cz)⟩
+  | _ => ⟨0, #[]⟩
+
+def parseVec1 : List String → Array C → Array C
+  | i :: re :: im :: rest, a => parseVec1 rest (a.setIfInBounds (nat! i) ⟨flt re, flt im⟩)
+  | _, a => a
+
+structure Case where
+  id : String := ""
+  n : Nat := 0
+  gates : Array G := #[]
+  mats : Array Dense := #[]
+  prod : Option Dense := none
+  sims : Array (Nat × Array C) := #[]
+  err : Option String := none
+
+def toGate (g : G) : Option (Gate C) :=
+  match gateMat g.name g.θ with
+  | some (ar, m) => if ar == g.args.length then some ⟨m, g.args⟩ else none
+  | none => none
+
+def kv' (k v : String) : String := k ++ "=" ++ v
+
+def symStr (s : Sym) : String :=
+  match s with
+  | none => "0"
+  | some l => if l.isEmpty then "1" else "*".intercalate (l.map fun (k, r, c) => s!"g{k}[{r}][{c}]")
+
+/-- symbolic structure of the reference layer: non-zero entries only -/
+def symLines (id : String) (n t : Nat) (L : List (List Nat)) : List String := Id.run do
+  let N := 2 ^ n
+  let gs := symGates L
+  let mut out : Array String := #[]
+  for i in [0:N] do
+    let mut row := ""
+    for j in [0:N] do
+      match layerRef n gs i j with
+      | none => pure ()
+      | some l => row := row ++ s!" {j}:{symStr (some (sortAtoms l))}"
+    out := out.push s!"Y id={id} layer={t} args={L} row={i}{row}"
+  return out.toList
+
+def judge (c : Case) (sym : Bool) : List String := Id.run do
+  let n := c.n
+  let N := 2 ^ n
+  let gsO := c.gates.toList.map toGate
+  let hdr := s!"R id={c.id} n={n} gates={c.gates.size}"
+  if gsO.any Option.isNone then return [hdr ++ " verdict=fail kind=bad-gate-line"]
+  let gs : List (Gate C) := gsO.filterMap id
+  let layers := compileLayers gs
+  let depth := layers.length
+  let maxmulti := layers.foldl (fun m l => Nat.max m (l.filter (fun g => g.args.length ≥ 2)).length) 0
+  let hdr := hdr ++ s!" layers={depth} maxmulti={maxmulti}"
+  let mut symOut : List String := []
+  if sym then
+    let mut t := 0
+    for l in layers do
+      symOut := symOut ++ symLines c.id n t (l.map (·.args))
+      t := t + 1
+  -- the models
+  let refs := layers.map fun l => Dense.ofMat N (layerRef n l)
+  let fixedM := layers.map fun l => (layer false n l).map fun m => Dense.ofMat m.dim m.e
+  let staleM := layers.map fun l => (layer true n l).map fun m => Dense.ofMat m.dim m.e
+  -- model self check: repaired model = reference (this is the theorem, re-evaluated numerically)
+  for (f, r) in fixedM.zip refs do
+    match f with
+    | none => return [hdr ++ " verdict=fail kind=model-self-check"] ++ symOut
+    | some fm => if (fm.diff r 1e-12 true).isSome then return [hdr ++ " verdict=fail kind=model-self-check"] ++ symOut
+  -- Uref: `BMV.Quantum.Uref` evaluated densely (same fold: a later gate multiplies on the left)
+  let uref := gs.foldl (fun u g => (Dense.ofMat N (embed n g)).mul u) (Dense.ident N)
+  let tolL : Float := 1e-5
+  let tolP : Float := 1e-5 * (Float.ofNat (Nat.max depth 1))
+  -- Go side failed?
+  match c.err with
+  | some e =>
+    let stalePanics := staleM.any Option.isNone
+    if stalePanics && e.startsWith "panic" then
+      return [hdr ++ " follows=stale verdict=stale kind=panic prop=fail err=" ++ (e.replace " " "_")] ++ symOut
+    return [hdr ++ " follows=none verdict=fail kind=impl-error err=" ++ (e.replace " " "_")] ++ symOut
+  | none => pure ()
+  if c.mats.size != depth then
+    return [hdr ++ s!" follows=none verdict=fail kind=split impl_layers={c.mats.size}"] ++ symOut
+  -- which model does the implementation follow, layer by layer
+  let mut followsFixed := true
+  let mut followsStale := true
+  let mut firstBad : Option (Nat × Nat × Nat) := none
+  let mut t := 0
+  for ((m, r), s) in (c.mats.toList.zip refs).zip staleM do
+    match m.diff r tolL true with
+    | some (i, j) =>
+      followsFixed := false
+      if firstBad.isNone then firstBad := some (t, i, j)
+    | none => pure ()
+    match s with
+    | some sm => if (m.diff sm tolL true).isSome then followsStale := false
+    | none => followsStale := false
+    t := t + 1
+  let follows := if followsFixed && followsStale then "both" else if followsFixed then "fixed"
+    else if followsStale then "stale" else "none"
+  let hdr := hdr ++ s!" follows={follows}"
+  -- the property itself: product of the emitted matrices vs Uref
+  let implProd := c.mats.foldl (fun p m => m.mul p) (Dense.ident N)
+  let propOk := (implProd.diff uref tolP false).isNone
+  match firstBad with
+  | some (bt, i, j) =>
+    let m : Dense := c.mats.getD bt (Dense.ident N)
+    let r := refs.getD bt (Dense.ident N)
+    let det := s!" kind=layer layer={bt} at={i},{j} impl={(m.get i j).str} ref={(r.get i j).str} prop={if propOk then "ok" else "fail"}"
+    if followsStale then return [hdr ++ " verdict=stale" ++ det] ++ symOut
+    return [hdr ++ " verdict=fail" ++ det] ++ symOut
+  | none => pure ()
+  if !propOk then return [hdr ++ " verdict=fail kind=product prop=fail"] ++ symOut
+  -- unitarity of every emitted matrix
+  let mut t2 := 0
+  for m in c.mats do
+    if ((m.mul m.dagger).diff (Dense.ident N) tolL false).isSome then
+      return [hdr ++ s!" verdict=fail kind=not-unitary layer={t2}"] ++ symOut
+    t2 := t2 + 1
+  -- Go's own product
+  match c.prod with
+  | some p => if (p.diff uref tolP false).isSome then return [hdr ++ " verdict=fail kind=go-product"] ++ symOut
+  | none => pure ()
+  -- software simulation: basis state k -> column k of Uref
+  for (k, v) in c.sims do
+    for i in [0:N] do
+      if !(C.dist (v.getD i cz) (uref.get i k) ≤ tolP) then
+        return [hdr ++ s!" verdict=fail kind=sim-column col={k} row={i} impl={(v.getD i cz).str} ref={(uref.get i k).str}"] ++ symOut
+  if c.sims.size != N then
+    return [hdr ++ s!" verdict=fail kind=sim-missing got={c.sims.size}"] ++ symOut
+  return [hdr ++ " verdict=ok prop=ok"] ++ symOut
+
+def step (sym : Bool) (c : Case) (l : String) : Case × List String :=
+  match fields l with
+  | "C" :: id :: n :: _ => ({ id := id, n := nat! n }, [])
+  | "G" :: rest => ({ c with gates := c.gates.push (parseG rest) }, [])
+  | "M" :: _k :: rest => ({ c with mats := c.mats.push (parseDense rest) }, [])
+  | "P" :: rest => ({ c with prod := some (parseDense rest) }, [])
+  | "S" :: k :: _nnz :: rest =>
+    ({ c with sims := c.sims.push (nat! k, parseVec1 rest (Array.replicate (2 ^ c.n) cz)) }, [])
+  | "E" :: rest => ({ c with err := some (" ".intercalate rest) }, [])
+  | ["X"] => ({}, judge c sym)
+  | _ => (c, [])
+
+def main (args : List String) : IO Unit := do
+  let _ ← foldStdin ({} : Case) (step (args.contains "--sym"))
+  pure ()
